@@ -599,6 +599,20 @@ type corpusCase struct {
 	// pool transactions, inbound ETX COUNT rule instead of the gas rule); the chain gets no funding and no
 	// generated inbound ETXs, only what script returns, and every block gets the mutant battery
 	startTx uint64
+	// gas-limit ramp: params.BlocksPerMonth is set to this value while the chain runs (CalcGasLimit grows the
+	// block gas limit linearly over the first 2*BlocksPerMonth blocks: it differs from the parent's on every block)
+	blocksPerMonth uint64
+}
+
+// plainInbound returns n default-type inbound ETXs (21000 gas each, a transfer to an account of the zone).
+func plainInbound(c *chain, r *hlib.Rng, n int) types.Transactions {
+	var out types.Transactions
+	for k := 0; k < n; k++ {
+		to := c.w.eoas[k%len(c.w.eoas)].addr
+		out = append(out, etx(&types.ExternalTx{To: &to, Gas: 21000, Value: big.NewInt(int64(100 + k)), EtxType: types.DefaultType,
+			OriginatingTxHash: originHash(r, common.Location{1, 0}), ETXIndex: uint16(k % 8), Sender: c.w.farQuai[2+k%2].addr}))
+	}
+	return out
 }
 
 var corpus = []corpusCase{
@@ -729,5 +743,43 @@ var corpus = []corpusCase{
 					OriginatingTxHash: originHash(r, loc), ETXIndex: uint16(k % 4), Sender: to, Data: data}))
 			}
 			return out
+		}},
+	// Round 3. Heights where the block gas limit differs from the parent's, with inbound ETXs still queued: the
+	// worker's inclusion quota (20 % of the gas limit of the block BEING BUILT) and the validator's range rule
+	// must be derived from the same block. (1) the first transaction-enabled block: TimeToStartTx = 2, blocks 1
+	// and 2 are in the start-up regime (gas limit 0, count rule), block 3 has gas limit MinGasLimit on a parent
+	// with gas limit 0. 60 coinbase ETXs are delivered after block 1 (block 2 takes 51 of them), 130 plain ETXs
+	// after block 2: block 3 must take the 9 coinbases and 115 plain ETXs (2,415,000 gas >= 2,400,000), block 4
+	// drains the queue.
+	{name: "tx-start-boundary", blocks: 6, noGeneric: true, startTx: 2,
+		script: func(c *chain, i int, b *types.WorkObject) types.Transactions {
+			r := hlib.NewRng(uint64(78 + i))
+			switch i {
+			case 0:
+				var out types.Transactions
+				for k := 0; k < 60; k++ {
+					to := c.w.eoas[k%len(c.w.eoas)].addr
+					if k%3 == 0 {
+						to = c.w.qis[k%2].addr
+					}
+					data := append([]byte{byte(k % 4)}, r.Bytes(32)...)
+					out = append(out, etx(&types.ExternalTx{To: &to, Gas: 21000, Value: big.NewInt(int64(1000 + k)), EtxType: types.CoinbaseType,
+						OriginatingTxHash: originHash(r, loc), ETXIndex: uint16(k % 4), Sender: to, Data: data}))
+				}
+				return out
+			case 1:
+				return plainInbound(c, r, 130)
+			}
+			return nil
+		}},
+	// (2) the gas-limit ramp: BlocksPerMonth = 4, so blocks 5..9 have gas limits 15.0, 18.75, 22.5, 26.25 and
+	// 30 million (MinGasLimit before), each different from its parent's. 420 plain ETXs are delivered after block
+	// 4: block 5 must take 143 of them (parent-derived quota: 115), block 6 179 (143), block 7 the rest.
+	{name: "gas-limit-ramp", blocks: 9, noGeneric: true, noMut: true, blocksPerMonth: 4,
+		script: func(c *chain, i int, b *types.WorkObject) types.Transactions {
+			if i != 3 {
+				return nil
+			}
+			return plainInbound(c, hlib.NewRng(91), 420)
 		}},
 }
